@@ -622,6 +622,78 @@ fn classes_of(s: &Schema, doc: &Doc, faults: &[Fault], kinds: &[String]) -> Vec<
     out.into_iter().collect()
 }
 
+// ------------------------------------------------------------------ cheaper case terms
+//
+// coqc spends its time elaborating the case terms (numerals and string literals above all), not evaluating
+// the model: positions become `(P nL nC)` with the constants of C03/CaseSyntax.v, and every distinct string
+// `(s "...")` becomes a constant `tK` defined once in the header of each shard that uses it.
+#[derive(Default)]
+struct Interner { map: std::collections::HashMap<String, usize>, defs: Vec<String> }
+impl Interner {
+    fn name(&mut self, lit: &str) -> String {
+        if let Some(k) = self.map.get(lit) { return format!("t{}", k); }
+        let k = self.defs.len();
+        self.defs.push(lit.to_string());
+        self.map.insert(lit.to_string(), k);
+        format!("t{}", k)
+    }
+}
+fn num(tok: &str) -> String { match tok.parse::<u32>() { Ok(n) if n < 400 => format!("n{}", n), _ => format!("{}%N", tok) } }
+fn compress(term: &str, intern: &mut Interner) -> String {
+    let b = term.as_bytes();
+    let mut out = String::with_capacity(term.len() / 2);
+    let mut i = 0;
+    while i < b.len() {
+        if term[i..].starts_with("(mkPos ") {
+            if let Some(end) = term[i..].find(')') {
+                let toks: Vec<&str> = term[i + 7..i + end].split(' ').collect();
+                if toks.len() == 4 && toks[2] == "0" && toks[3] == "false" {
+                    out.push_str(&format!("(P {} {})", num(toks[0]), num(toks[1])));
+                    i += end + 1;
+                    continue;
+                }
+                if toks.len() == 4 && toks[0] == "0" && toks[1] == "0" && toks[2] == "0" && toks[3] == "true" {
+                    out.push_str("pos0");
+                    i += end + 1;
+                    continue;
+                }
+            }
+        }
+        if term[i..].starts_with("(s \"") {
+            // Coq string literal: "" is an escaped quote
+            let mut j = i + 4;
+            loop {
+                if b[j] == b'"' { if j + 1 < b.len() && b[j + 1] == b'"' { j += 2; continue; } break; }
+                j += 1;
+            }
+            if j + 1 < b.len() && b[j + 1] == b')' {
+                out.push_str(&intern.name(&term[i..j + 2]));
+                i = j + 2;
+                continue;
+            }
+        }
+        // copy one char (terms may contain non-ASCII only inside literals handled above, but stay safe)
+        let ch = term[i..].chars().next().unwrap();
+        out.push(ch);
+        i += ch.len_utf8();
+    }
+    out
+}
+fn used_names(term: &str) -> BTreeSet<usize> {
+    let b = term.as_bytes();
+    let mut s = BTreeSet::new();
+    let mut i = 0;
+    while i < b.len() {
+        if b[i] == b't' && (i == 0 || !(b[i - 1].is_ascii_alphanumeric() || b[i - 1] == b'_')) {
+            let mut j = i + 1;
+            while j < b.len() && b[j].is_ascii_digit() { j += 1; }
+            if j > i + 1 && (j == b.len() || !(b[j].is_ascii_alphanumeric() || b[j] == b'_')) { s.insert(term[i + 1..j].parse().unwrap()); }
+            i = j;
+        } else { i += 1; }
+    }
+    s
+}
+
 // ------------------------------------------------------------------ cases
 
 struct Out {
@@ -654,16 +726,30 @@ fn run_case(out: &mut Out, si: usize, sdl: &str, ts: &graphql_type_system::Schem
         Ok(Ok((doc_term, errs))) => {
             for e in &errs { *out.by_kind.entry(kind_name(&e.message)).or_insert(0) += 1; }
             if !errs.is_empty() { out.nonempty += 1; }
-            let term = format!("mkCase {{SCHEMA}} {} {}", doc_term, coq_list(&errs, err_coq));
-            out.terms.push((si, term));
             let mut d = json!({"schema": sdl, "doc": text, "errors": errs.iter().map(|e| { let (m, l, c, _) = error_summary(e); json!([m, l, c]) }).collect::<Vec<_>>()});
             if let (Value::Object(a), Value::Object(b)) = (&mut d, info) { for (k, v) in b { a.insert(k, v); } }
-            out.descr.push(d);
+            let known = d.get("classes").and_then(|c| c.as_array()).map_or(false, |a| !a.is_empty());
+            // every document is judged on the positions a spread-following validator reaches (c_full = false) ...
+            let term = format!("mkCase {{SCHEMA}} {} {} false", doc_term, coq_list(&errs, err_coq));
+            out.terms.push((si, term));
+            let mut d0 = d.clone();
+            d0["classes"] = json!([]);
+            d0["reading"] = json!("visible positions");
+            out.descr.push(d0);
+            // ... and a document built to exhibit a known blind spot a second time on every position (c_full = true)
+            if known && !c04_mode() {
+                let term = format!("mkCase {{SCHEMA}} {} {} true", doc_term, coq_list(&errs, err_coq));
+                out.terms.push((si, term));
+                d["reading"] = json!("every position");
+                out.descr.push(d);
+            }
             out.distinct.insert(format!("{}\u{0}{}", sdl, text));
             Some(errs.len())
         }
     }
 }
+
+fn c04_mode() -> bool { std::env::args().collect::<Vec<_>>().windows(2).any(|w| w[0] == "--mode" && w[1] == "c04") }
 
 /// hand-written documents: (schema SDL, document, known-finding classes, note)
 fn corpus() -> Vec<(&'static str, &'static str, Vec<&'static str>, &'static str)> {
@@ -674,6 +760,7 @@ fn corpus() -> Vec<(&'static str, &'static str, Vec<&'static str>, &'static str)
         (S1, "query Q { i { ... on I { nonexistent } } }\n", vec!["same-interface-fragment-skipped"], "inline fragment on the enclosing interface is skipped"),
         (S1, "query Q { i { ...F } }\nfragment F on I { nonexistent @nope ...Missing }\n", vec!["same-interface-fragment-skipped"], "spread of a fragment on the enclosing interface is skipped"),
         (S1, "query Q { a { a(j: {k: $nope}) } }\n", vec!["variable-inside-custom-scalar-literal-unchecked"], "variables inside custom scalar literals are not looked at"),
+        (S1, "query Q { a { a(x: 1, x: \"s\") } }\n", vec!["duplicate-argument-value-unchecked"], "only the first of two values given for one argument is type-checked"),
         // behaviour fixed by the fix: commits (regressions would show as disagreement / property failure)
         (S1, "query Q { a { a(i: {c: 1}) } }\n", vec![], "unknown input field"),
         (S1, "query Q { a { a(f: 1, ids: 5, i: {l: {a: 1}}) } }\n", vec![], "int for float, single for list"),
@@ -695,6 +782,20 @@ fn main() {
     let mut rng = Rng::new(args.seed);
     let thorough = args.tier == "thorough";
     let c04 = args.extra.windows(2).any(|w| w[0] == "--mode" && w[1] == "c04");
+    if args.extra.iter().any(|a| a == "--emit-witness") {
+        // development aid: the corpus as Coq definitions (pasted into coq/C03/Witness.v)
+        let mut schemas: Vec<&str> = vec![];
+        for (k, (sdl, text, _, note)) in corpus().into_iter().enumerate() {
+            let si = match schemas.iter().position(|x| *x == sdl) { Some(i) => i, None => {
+                schemas.push(sdl);
+                let tsdoc = load_schema(sdl).unwrap();
+                println!("Definition w_schema_{} : tsdoc := {}.", schemas.len() - 1, ast_coq::tsdoc(&tsdoc));
+                schemas.len() - 1 } };
+            let doc = load_operation(text).unwrap();
+            println!("(* {}: {} (schema {}) *)\nDefinition w_doc_{} : opdoc := {}.", note, text.replace('\n', " "), si, k, ast_coq::opdoc(&doc));
+        }
+        return;
+    }
     let mut out = Out { schemas: vec![], terms: vec![], descr: vec![], distinct: HashSet::new(), by_kind: BTreeMap::new(), by_rule: BTreeMap::new(),
         by_mut: BTreeMap::new(), silent_faults: 0, nonempty: 0, features: BTreeMap::new(), direct: vec![] };
 
@@ -763,14 +864,21 @@ fn main() {
     // 3. write shards: each shard defines the schemas its cases use
     let shard_size = 100usize;
     fs::create_dir_all(&args.out).unwrap();
-    let imports = if c04 { "From V Require Import Base.Util Gql.Ast C03.Model C03.Spec C03.Corr C04.Corr." } else { "From V Require Import Base.Util Gql.Ast C03.Model C03.Spec C03.Corr." };
+    let imports = if c04 { "From V Require Import Base.Util Gql.Ast C03.Model C03.Spec C03.CaseSyntax C03.Corr C04.Corr." } else { "From V Require Import Base.Util Gql.Ast C03.Model C03.Spec C03.CaseSyntax C03.Corr." };
     let holds = if c04 { "holds4" } else { "holds" };
+    let mut intern = Interner::default();
+    let schemas: Vec<String> = out.schemas.iter().map(|t| compress(t, &mut intern)).collect();
+    let terms: Vec<(usize, String)> = out.terms.iter().map(|(si, t)| (*si, compress(t, &mut intern))).collect();
     let mut k = 0;
-    for chunk in out.terms.chunks(shard_size) {
+    for chunk in terms.chunks(shard_size) {
         let mut v = String::new();
         let _ = writeln!(v, "{}", imports);
         let used: BTreeSet<usize> = chunk.iter().map(|(si, _)| *si).collect();
-        for si in &used { let _ = writeln!(v, "Definition sch_{} : tsdoc := {}.", si, out.schemas[*si]); }
+        let mut names: BTreeSet<usize> = BTreeSet::new();
+        for si in &used { names.extend(used_names(&schemas[*si])); }
+        for (_, t) in chunk { names.extend(used_names(t)); }
+        for n in &names { let _ = writeln!(v, "Definition t{} : str := {}.", n, intern.defs[*n]); }
+        for si in &used { let _ = writeln!(v, "Definition sch_{} : tsdoc := {}.", si, schemas[*si]); }
         let _ = writeln!(v, "Definition cases : list case := [");
         for (i, (si, t)) in chunk.iter().enumerate() {
             let _ = writeln!(v, "  {}{}", t.replace("{SCHEMA}", &format!("sch_{}", si)), if i + 1 < chunk.len() { ";" } else { "" });
